@@ -11,12 +11,15 @@
 //                 order (a repeated index is a repeated authority: its weight is summed)
 //     the other fields are those of the `vj` cases of part 2 (harness_cg_test.go)
 // observables:
-//   <o1;o2;..> <b1,b2,..|->     o_k: ok | decode | target | commit | sig | ancestry | unused | other | panic
+//   <o1;o2;..> <b1,b2,..|->     o_k: ok | decode | target | commit | sig | ancestry | unused | noauth | other | panic
+//     noauth = the authority list yields no voter set (empty list): "invalid authority set"
+//     fnum may exceed 2^32 (the argument is a uint; the justification's numbers are uint32)
 //     b_i = <verdict>:<first 8 bytes of the signature> for precommit i of the identity order
 package grandpa
 
 import (
 	stded25519 "crypto/ed25519"
+	"encoding/binary"
 	"encoding/hex"
 	"fmt"
 	"strings"
@@ -87,6 +90,10 @@ func c19LClass(err error) string {
 		return "ancestry"
 	case strings.Contains(s, "unused headers"):
 		return "unused"
+	case strings.Contains(s, "invalid authority set"):
+		return "noauth"
+	case strings.Contains(s, "does not fit"):
+		return "target"
 	}
 	return "other"
 }
@@ -140,9 +147,6 @@ func c19LRun(in string) string {
 		}
 		state.auths = append(state.auths, types.GrandpaVoter{Key: *pk, ID: uint64(i)})
 	}
-	if len(state.auths) == 0 {
-		return "novoters -" // NewVoterSet returns nil and VerifyBlockJustification dereferences it
-	}
 	// real headers of the tree
 	hs := make([]*generic.Header[uint32, hash.H256, runtime.BlakeTwo256], m)
 	hh := make([]hash.H256, m)
@@ -157,9 +161,13 @@ func c19LRun(in string) string {
 			hash.H256(strings.Repeat("\x00", 32)), parent, runtime.Digest{})
 		hh[i] = hs[i].Hash()
 	}
+	// hand-built bytes, not the implementation's encoder: precommit stage 1, hash, number (4 LE), round, set id (8 LE)
 	payload := func(target hash.H256, num uint64, round, setID uint64) []byte {
-		pc := finality_grandpa.Precommit[hash.H256, uint32]{TargetHash: target, TargetNumber: uint32(num)}
-		return primitives.NewLocalizedPayload(primitives.RoundNumber(round), primitives.SetID(setID), finality_grandpa.NewMessage(pc))
+		msg := append([]byte{1}, []byte(target)...)
+		msg = binary.LittleEndian.AppendUint32(msg, uint32(num))
+		msg = binary.LittleEndian.AppendUint64(msg, round)
+		msg = binary.LittleEndian.AppendUint64(msg, setID)
+		return msg
 	}
 	sigs := make([]ced25519.Signature, len(pcs))
 	bits := make([]string, len(pcs))
@@ -257,12 +265,18 @@ func c19LGen(r *vu.RNG, n int, emit func(string)) {
 		if r.Chance(1, 4) && c.nv > 0 {
 			auths = append(auths, r.Intn(c.nv))
 		}
+		if r.Chance(1, 25) { // an authority set without authorities: no voter set, every justification is rejected
+			auths = nil
+		}
 		fblk, fnum := c.tblk, c.tnum
 		if r.Chance(1, 30) {
 			fblk = r.Intn(len(c.tree.parents) + 1)
 		}
 		if r.Chance(1, 40) {
 			fnum++
+		}
+		if r.Chance(1, 30) { // a finalized number that only agrees with the commit target modulo 2^32
+			fnum += 1 << 32
 		}
 		bad := r.Chance(1, 6)
 		pcs := c.pcString(func(i int) string {
